@@ -37,7 +37,7 @@ PROPS = {
         "lean": "Props.C09",
         "domains": [{"name": "loadrep"}, {"name": "loaddeep"}],
         "trusted": ["repeated loads in one process exercise the Go runtime's map iteration orders and goroutine schedules "
-                    "(25/40 loads quick, 80/150 thorough per tree); the theorem, not the sample, covers all orders",
+                    "(25/40 loads quick, 100/200 thorough per tree); the theorem, not the sample, covers all orders",
                     "extract/load.go finds map ranges syntactically (identifiers/fields/calls whose map type is declared in "
                     "the scanned packages, plus PredecessorMap/AdjacencyMap/godotenv)"],
         "assumptions": ["compile-time determinism (templating, sh: variables) is outside this model: only the Gen.NondetSites "
